@@ -16,7 +16,7 @@ theorem src_offset_local_tz_info_parser_rs_fn_new : C16_src_offset_local_tz_info
 
 /-- src/offset/local/tz_info/parser.rs:fn parse -/
 theorem src_offset_local_tz_info_parser_rs_fn_parse : C16_src_offset_local_tz_info_parser_rs_fn_parse =
-    ["v1", "&", "u8", "->", "Result", "<", "TimeZone", "Error", ">", "v2", "Cursor", "new(", "v1", "v3", "State", "new(", "&", "v2", "true", "?", "let(", "v3", "v4", "match", "v3", "v5", "v6", "Version", "V1", "=>", "match", "v2", "is_empty(", "true", "=>", "v3", "None", "false", "=>", "return", "Err(", "Error", "InvalidTzFile(", "\"…\"", "Version", "V2", "|", "Version", "V3", "=>", "v3", "State", "new(", "&", "v2", "false", "?", "v3", "Some(", "v2", "remaining(", "v7", "Vec", "with_capacity(", "v3", "v5", "v8", "for(", "v9", "&", "v10", "in", "v3", "v11", "chunks_exact(", "v3", "v12", "zip(", "v3", "v13", "v14", "v3", "parse_time(", "&", "v9", "0", "..", "v3", "v12", "v3", "v5", "v6", "?", "v10", "v10", "as", "usize", "v7", "push(", "Transition", "new(", "v14", "v10", "v15", "Vec", "with_capacity(", "v3", "v5", "v16", "for", "v17", "in", "v3", "v15", "chunks_exact(", "6", "v18", "read_be_i32(", "&", "v17", "..", "?", "v19", "match", "v17", "4", "0", "=>", "false", "1", "=>", "true", "v20", "=>", "return", "Err(", "Error", "InvalidTzFile(", "\"…\"", "v21", "v17", "5", "as", "usize", "if", "v21", ">=", "v3", "v5", "v22", "return", "Err(", "Error", "InvalidTzFile(", "\"…\"", "v23", "match", "v3", "v24", "v21", "..", "iter(", "position(", "|", "&", "v25", "|", "v25", "==", "b'\\0'", "Some(", "v23", "=>", "v23", "None", "=>", "return", "Err(", "Error", "InvalidTzFile(", "\"…\"", "v26", "&", "v3", "v24", "v21", "..", "v21", "+", "v23", "v26", "if", "!", "v26", "is_empty(", "Some(", "v26", "else", "None", "v15", "push(", "LocalTimeType", "new(", "v18", "v19", "v26", "?", "v27", "Vec", "with_capacity(", "v3", "v5", "v28", "for", "v17", "in", "v3", "v27", "chunks_exact(", "v3", "v12", "+", "4", "v14", "v3", "parse_time(", "&", "v17", "0", "..", "v3", "v12", "v3", "v5", "v6", "?", "v29", "read_be_i32(", "&", "v17", "v3", "v12", "..", "v3", "v12", "+", "4", "?", "v27", "push(", "LeapSecond", "new(", "v14", "v29", "v30", "v3", "v31", "iter(", "copied(", "chain(", "v32", "repeat(", "0", "v33", "v3", "v34", "iter(", "copied(", "chain(", "v32", "repeat(", "0", "if", "v30", "zip(", "v33", "take(", "v3", "v5", "v16", "any(", "|", "v35", "|", "v35", "==", "0", "1", "return", "Err(", "Error", "InvalidTzFile(", "\"…\"", "v36", "match", "v4", "Some(", "v4", "=>", "v4", "str", "from_utf8(", "v4", "?", "if!(", "v4", "starts_with(", "'\\n'", "&&", "v4", "ends_with(", "'\\n'", "return", "Err(", "Error", "InvalidTzFile(", "\"…\"", "v37", "v4", "trim_matches(", "|", "v25", "char", "|", "v25", "is_ascii_whitespace(", "if", "v37", "starts_with(", "':'", "||", "v37", "contains(", "'\\0'", "return", "Err(", "Error", "InvalidTzFile(", "\"…\"", "match", "v37", "is_empty(", "true", "=>", "None", "false", "=>", "Some(", "TransitionRule", "from_tz_string(", "v37", "as_bytes(", "v3", "v5", "v6", "==", "Version", "V3", "?", "None", "=>", "None", "TimeZone", "new(", "v7", "v15", "v27", "v36"] := by decide +kernel
+    ["v1", "&", "u8", "->", "Result", "<", "TimeZone", "Error", ">", "v2", "Cursor", "new(", "v1", "v3", "State", "new(", "&", "v2", "true", "?", "let(", "v3", "v4", "match", "v3", "v5", "v6", "Version", "V1", "=>", "match", "v2", "is_empty(", "true", "=>", "v3", "None", "false", "=>", "return", "Err(", "Error", "InvalidTzFile(", "\"…\"", "Version", "V2", "|", "Version", "V3", "=>", "v7", "v3", "v5", "v6", "v3", "State", "new(", "&", "v2", "false", "?", "if", "v3", "v5", "v6", "!=", "v7", "return", "Err(", "Error", "InvalidTzFile(", "\"…\"", "v3", "Some(", "v2", "remaining(", "v8", "Vec", "with_capacity(", "v3", "v5", "v9", "for(", "v10", "&", "v11", "in", "v3", "v12", "chunks_exact(", "v3", "v13", "zip(", "v3", "v14", "v15", "v3", "parse_time(", "&", "v10", "0", "..", "v3", "v13", "v3", "v5", "v6", "?", "v11", "v11", "as", "usize", "v8", "push(", "Transition", "new(", "v15", "v11", "v16", "Vec", "with_capacity(", "v3", "v5", "v17", "for", "v18", "in", "v3", "v16", "chunks_exact(", "6", "v19", "read_be_i32(", "&", "v18", "..", "?", "v20", "match", "v18", "4", "0", "=>", "false", "1", "=>", "true", "v21", "=>", "return", "Err(", "Error", "InvalidTzFile(", "\"…\"", "v22", "v18", "5", "as", "usize", "if", "v22", ">=", "v3", "v5", "v23", "return", "Err(", "Error", "InvalidTzFile(", "\"…\"", "v24", "match", "v3", "v25", "v22", "..", "iter(", "position(", "|", "&", "v26", "|", "v26", "==", "b'\\0'", "Some(", "v24", "=>", "v24", "None", "=>", "return", "Err(", "Error", "InvalidTzFile(", "\"…\"", "v27", "&", "v3", "v25", "v22", "..", "v22", "+", "v24", "v27", "if", "!", "v27", "is_empty(", "Some(", "v27", "else", "None", "v16", "push(", "LocalTimeType", "new(", "v19", "v20", "v27", "?", "v28", "Vec", "with_capacity(", "v3", "v5", "v29", "for", "v18", "in", "v3", "v28", "chunks_exact(", "v3", "v13", "+", "4", "v15", "v3", "parse_time(", "&", "v18", "0", "..", "v3", "v13", "v3", "v5", "v6", "?", "v30", "read_be_i32(", "&", "v18", "v3", "v13", "..", "v3", "v13", "+", "4", "?", "v28", "push(", "LeapSecond", "new(", "v15", "v30", "v31", "v3", "v32", "iter(", "copied(", "chain(", "v33", "repeat(", "0", "v34", "v3", "v35", "iter(", "copied(", "chain(", "v33", "repeat(", "0", "if", "v31", "zip(", "v34", "take(", "v3", "v5", "v17", "any(", "|", "v36", "|", "v36", "==", "0", "1", "return", "Err(", "Error", "InvalidTzFile(", "\"…\"", "v37", "match", "v4", "Some(", "v4", "=>", "v4", "str", "from_utf8(", "v4", "?", "if", "v4", "len(", "<", "2", "||", "!", "v4", "starts_with(", "'\\n'", "&&", "v4", "ends_with(", "'\\n'", "return", "Err(", "Error", "InvalidTzFile(", "\"…\"", "v38", "v4", "trim_matches(", "|", "v26", "char", "|", "v26", "is_ascii_whitespace(", "if", "v38", "starts_with(", "':'", "||", "v38", "contains(", "'\\0'", "return", "Err(", "Error", "InvalidTzFile(", "\"…\"", "match", "v38", "is_empty(", "true", "=>", "None", "false", "=>", "Some(", "TransitionRule", "from_tz_string(", "v38", "as_bytes(", "v3", "v5", "v6", "==", "Version", "V3", "?", "None", "=>", "None", "TimeZone", "new(", "v8", "v16", "v28", "v37"] := by decide +kernel
 
 /-- src/offset/local/tz_info/parser.rs:fn parse_time -/
 theorem src_offset_local_tz_info_parser_rs_fn_parse_time : C16_src_offset_local_tz_info_parser_rs_fn_parse_time =
